@@ -31,7 +31,7 @@ ASSUMPTIONS = ["don't-care: bool for int fields, +-inf and NaN literals, ctypes 
                "inconclusive)",
                "float read-back compared via struct round trip; strings up to the first NUL"]
 REQUIRE = {"assignments": 20000, "refusals_required": 5000, "readbacks_compared": 5000, "atomicity_checked_on_raise": 5000,
-           "disable_blocks_checked": 50}
+           "disable_blocks_checked": 50, "checked_while_other_thread_in_disable_block": 10}
 CASE_TIMEOUT = 120
 HUGE = 10 ** 400
 
@@ -381,6 +381,37 @@ def disable_program(mon, mod, rng, shape):
     except Boom:
         pass
     mon.bump("disable_blocks_checked")
+    helper = None
+    if shape.get("other_thread"):
+        # another thread is inside an explicit disable block (a MessageManager.run() thread keeps one open for its
+        # whole life); this thread is not, so validation is in force here
+        import threading
+        entered, release = threading.Event(), threading.Event()
+
+        def sit():
+            with disable_message_validation():
+                entered.set()
+                release.wait(30)
+
+        helper = threading.Thread(target=sit, daemon=True)
+        helper.start()
+        entered.wait(10)
+        mon.bump("checked_while_other_thread_in_disable_block")
+    try:
+        _after_blocks(mon, mod, levels, raise_at, "while_other_thread_in_disable_block" if helper else None)
+    finally:
+        if helper:
+            release.set()
+            helper.join(10)
+    # restore for the following cases (the violation, if any, has been recorded)
+    try:
+        from pyrtma import validators as _v
+        _v._VALIDATION_ENABLED.set(True)
+    except Exception:
+        pass
+
+
+def _after_blocks(mon, mod, levels, raise_at, tag):
     # validation must be in force again
     top2 = mod.MDF_FSCALARS()
     for path, kind, v in ((("f_int8",), ["int", 8, True], 1000), (("f_uint16",), ["int", 16, False], -1), (("f_float",), ["float", 32], 1e39),
@@ -391,15 +422,15 @@ def disable_program(mon, mod, rng, shape):
                     f"= {v!r} after disable block(s) {levels} left {'by exception at level ' + str(raise_at) if raise_at is not None else 'normally'}")
         for x in mon.V[n0:]:
             if x["mech"].startswith("out_of_domain_accepted"):
-                x["mech"] = "validation_off_after_disable_block:" + ("exception" if raise_at is not None else "normal")
+                x["mech"] = "validation_off_" + (tag or "after_disable_block") + ":" + ("exception" if raise_at is not None else "normal")
     a = mod.MDF_FARRAYS3()
     n0 = len(mon.V)
     mon.attempt(a, ("a_int16",), ["intarray", 16, True, 3], lambda: setattr(a, "a_int16", [1, 70000, 2]), None, "refuse", None,
                 f"= [1,70000,2] after disable block(s) {levels} raise_at={raise_at}")
     for x in mon.V[n0:]:
         if x["mech"].startswith("out_of_domain_accepted"):
-            x["mech"] = "validation_off_after_disable_block:" + ("exception" if raise_at is not None else "normal")
-    # restore for the following cases (the violation, if any, has been recorded)
+            x["mech"] = "validation_off_" + (tag or "after_disable_block") + ":" + ("exception" if raise_at is not None else "normal")
+    return
     try:
         from pyrtma import validators as _v
         _v._VALIDATION_ENABLED.set(True)
@@ -428,6 +459,9 @@ def gen_cases(tier, seed):
             levels = [bool(flags >> i & 1) for i in range(depth)]
             for raise_at in [None] + list(range(depth + 1)):
                 shapes.append({"levels": levels, "raise_at": raise_at})
+                if raise_at in (None, 0):
+                    # the same, with another thread sitting inside a disable block of its own while this thread checks
+                    shapes.append({"levels": levels, "raise_at": raise_at, "other_thread": True})
     for i in range(0, len(shapes), 8):
         cases.append({"mode": "disable", "shapes": shapes[i:i + 8], "seed": rng.getrandbits(32)})
     # the repository's own tests with the atomicity contract riding on every validator descriptor
